@@ -125,3 +125,6 @@ def replay_any(v, run_scenario):
 
 
 REPLAY = {'*': replay_any}
+
+from checks import migrate as _migrate
+_migrate.attach(globals(), 'hub')
